@@ -5,7 +5,7 @@ cd /verif; . ./env.sh
 STAGES=${@:-status props checks seeds design}
 for st in $STAGES; do case $st in
 status)
-  rm -rf /var/tmp/status_final; STATUS_T=15 ./tools_status.sh /var/tmp/status_final 2>&1 | tail -120
+  STATUS_T=${STATUS_T:-8} ./tools_status.sh /var/tmp/status_final 2>&1 | tail -120
   rm -rf /var/tmp/rvc-* ;;
 props)
   ./tools_props.py /var/tmp/status_final/*.json | grep -v "left out" ; ./tools_manifest.py ;;
